@@ -878,11 +878,15 @@ func sortedAscendingByID(c *an.Ctx, fn *ssa.Function, slice ssa.Value, at ssa.In
 		// less returns s[i].f < s[j].f with f == id and i,j the parameters in order
 		for _, r := range an.Returns(less) {
 			bo, ok := r.Results[0].(*ssa.BinOp)
-			if !ok || bo.Op != token.LSS {
+			if !ok || (bo.Op != token.LSS && bo.Op != token.GTR) {
 				return false, "the less function does not return `a < b`"
 			}
-			li, lf := indexedField(bo.X)
-			ri, rf := indexedField(bo.Y)
+			lo, hi := bo.X, bo.Y
+			if bo.Op == token.GTR { // `b > a` is the same ordering
+				lo, hi = hi, lo
+			}
+			li, lf := indexedField(lo)
+			ri, rf := indexedField(hi)
 			if lf != "id" || rf != "id" || li != less.Params[0] || ri != less.Params[1] {
 				return false, "the less function does not compare s[i].id < s[j].id"
 			}
@@ -1705,12 +1709,14 @@ func r0113(c *an.Ctx, rule string) {
 	c.Count("functions_taking_options", n)
 }
 
-// r0114: the update-mask validation rules of C05 (R05.2, R05.6) seen from C01: a write whose mask names a read-only or
+// r0114: the update-mask rules of C05 (R05.2, R05.6, R05.7, R05.8) seen from C01: a write whose mask names a read-only or
 // unknown field is a call that fails and changes nothing.
 func r0114(c *an.Ctx, rule string) {
 	sub := an.NewCtx(c.Prog, c.Property, c.Tier)
 	r052(sub)
 	r065as(sub, "R05.6")
+	r057(sub)          // extra update paths only narrow a mask that is there: a nil mask stays "all fields"
+	r058(sub, "R05.8") // masks reach fmutils normalised (reset/update masks naming a path and one it covers)
 	n := 0
 	for _, o := range sub.Obls {
 		o.Key = rule + "|" + o.Construct
